@@ -27,6 +27,22 @@ C = {
  "C07": ("exploration", "bounded-exhaustive enumeration against a hand-written byte-level grammar recogniser",
    "Every string of length <=5 (quick) / <=6 (thorough) over a 13-symbol alphabet incl. non-ASCII and NUL, every byte at every position of skeleton names, seeded longer names; acceptance, parts, recomposition, failure contract, per-part validators, compose/parse round trip.",
    "trusted: model_grammar.go", "3 C07"),
+ "C08": ("exploration", "sanitizer-style crash/hang monitor: hostile inputs through every listed entry point with recover(), per-call thread CPU time, and a child process whose watcher goroutine must survive dropped files",
+   "Structure-aware, YAML-feature, byte-level and random hostile file contents through ParseSpec/ReadSpec/Refresh/schema validation, injection of every loadable mutant into generated OCI specs, G-STR strings through the annotation and parser helpers; a child with an auto-refresh cache gets hostile files renamed into its directory and must afterwards still notice a good file.",
+   "trusted: only recoverable panics, process death and CPU time are observable; inputs <= 256 KiB", "3 C08"),
+ "C10": ("fault_enumeration", "crash-point enumeration with strace SIGKILL injection at every file-system syscall of the writer, write-failure offsets via RLIMIT_FSIZE, ENOSPC tmpfs, errno injection, raw inotify trace, hook-point reader interleaving",
+   "For {previous file, none} x {json, yaml} x {small, 64 KiB}: the writer child is killed on entry to each syscall of the sequence observed in a dry run; writes fail at every/sampled byte offset, on a full tmpfs, at rename, and with injected errnos; a raw inotify watch and sampling readers observe thousands of concurrent overwrites; a full reader observation runs at each write.* hook point. Oracle: every Spec-named entry is byte-equal to the complete old or new content and nothing left behind is loadable.",
+   "trusted: strace kills before the syscall takes effect; rename(2) atomicity; process death only (no power loss)", "3 C10"),
+ "C11": ("exploration", "convergence monitor: seeded file-system histories with adversarial pacing (watcher held, changes made from inside a directory scan), logical quiescence via sentinel + watch.event hook, comparison with a fresh cache",
+   "Histories of 1-12 operations of 16 kinds over 1-3 directories, observed through queries only; after the watcher drained, within two rounds of queries the devices, definitions and files in error must equal those of a freshly built cache. 'Soon' is restated as bounded progress.",
+   "trusted: inotify FIFO ordering per instance; the fresh cache as reference (its correctness is C01's job)", "3 C11"),
+ "C12": ("exploration", "Go race detector over a stress of all public operations + snapshot histories checked for mixture, monotonicity and linearizability (porcupine)",
+   "Race build: 8-24 goroutines x all public cache operations in manual and auto mode with an external mutator, reports de-duplicated by outermost pkg/cdi frame pair, progress monitor; thousands of short histories with an atomic version switcher checked for no-mixture, per-goroutine monotonicity and linearizability against a 3-line (fs, cache) model.",
+   "trusted: the race detector only sees executed races; stamps at the client boundary; porcupine v1.3.0", "3 C12"),
+ "C20": ("fault_enumeration", "child-process histories of Configure calls with exact accounting from /proc (descriptors, inotify watches by inode, watcher goroutines), descriptor exhaustion at every step index, held-watcher catalogue case; compared with a fresh cache",
+   "1-40 reconfigurations (private and default cache) with directory changes and descriptor exhaustion (strict / table full) during step k or from step k on, k<=8: final state equals a fresh cache with the final options, watches exactly on the existing final directories (or none in manual mode), later changes converge (or wait for Refresh), resources <= baseline + one watcher.",
+   "trusted: /proc/self/fd and fdinfo; one watcher = 4 descriptors + 2 goroutines; nothing asserted during the shortage itself", "3 C20"),
+
  "C09": ("exploration", "round-trip monitor: WriteSpec then ReadSpec / Refresh+GetDevice over G-STR strings in every free-text field and numeric extremes, both encodings",
    "One free-text field at a time takes hostile valid-UTF-8 strings (YAML-sensitive spellings, line breaks in every position, controls, NEL/LS/PS, BOM, non-characters, non-BMP) and integer fields take their extremes; the files written as x.json, x.yaml and x must read back equal and load to the same devices. The YAML block-scalar mismatch between yaml.v3 and yaml.v2 is a recorded known finding.",
    "trusted: normalised JSON comparison identifies nil and empty containers", "3 C09"),
